@@ -479,7 +479,9 @@ def load_known_findings():
 
 
 def write_evidence(pid, tier, seed, coverage, wall, violations, assumptions, level="model_checking"):
-    if os.path.realpath(REPO) != "/repo":      # a scratch tree is under test (VERIF_REPO): keep /verif/evidence for /repo itself
+    # a scratch tree is under test (VERIF_REPO), or an exploratory run (other seeds) asked for it: keep /verif/evidence for
+    # the registered runs against /repo itself
+    if os.path.realpath(REPO) != "/repo" or os.environ.get("VERIF_SCRATCH_EVIDENCE"):
         d = os.path.join(VERIF, ".scratch", "evidence_other_tree")
         os.makedirs(d, exist_ok=True)
         ev = {"property_id": pid, "tier": tier, "seed": int(seed), "level": level, "coverage": coverage,
